@@ -92,7 +92,7 @@ def with_opts(scen, rng, aux_ok=True):
     return cases
 
 
-def run(pid, tier, seed, *, select, extra_cases, rule, assumptions, level="model_checking", mc_bounds=None, needs=None):
+def run(pid, tier, seed, *, select, extra_cases, rule, assumptions, level="model_checking", mc_bounds=None, needs=None, extra_leg=None):
     t0 = time.time()
     sc = core.Scratch(pid)
     rng = random.Random(1000003 * seed + 17)
@@ -122,6 +122,10 @@ def run(pid, tier, seed, *, select, extra_cases, rule, assumptions, level="model
                        earlyOn=C["earlyOn"], resumed=r["case"].get("resume") is not None, **{k: v for k, v in r["case"]["opt"].items() if k != "seed"})
             viol.append(dict(clause=x["clause"], sig=sig, detail=f"expected iterations {x['ev']}", driver="harness.drv_solve:run_case",
                              cfg=r["case"], record=dict(C=C, obs=r["obs"], draws=r["draws"])))
+        leg_stats = {}
+        if extra_leg is not None:
+            v2, leg_stats = extra_leg(tier, seed)
+            viol += v2
         rc, n_new, n_known = core.report(pid, viol)
         stats = dict(faulty=sum(1 for r in recs if r["C"]["fault"] >= 0), stopped_early=sum(1 for r in recs if 0 <= len([h for h in r["obs"]["hist"] if h["ver"] != -2]) < r["C"]["n"] and r["C"]["fault"] < 0),
                      scripted=sum(1 for r in recs if r["C"]["vkind"] == "script"), builtin=sum(1 for r in recs if r["C"]["vkind"] == "builtin"),
@@ -144,7 +148,7 @@ def run(pid, tier, seed, *, select, extra_cases, rule, assumptions, level="model
             samples=[core.clip(dict(C=r["C"], opt=r["case"]["opt"], obs=r["obs"]), 1800) for r in recs[:: max(1, len(recs) // 2)][:2]],
             exhaustive=False, mc=dict(bounds=dict(zip(("MaxN", "MaxCE", "MaxPatience", "MaxVal"), bounds)), distinct=r_mc.distinct, generated=r_mc.generated, depth=r_mc.depth),
             scenarios_emitted_by_tlc=len(scen), scenario_strata=ngroups, scenarios_replayed=len(recs), replay_stats=stats,
-            records_rejected=len(rej), known_finding_hits=n_known, rule=rule)
+            records_rejected=len(rej), known_finding_hits=n_known, rule=rule, **leg_stats)
         core.write_evidence(pid, tier, seed, level, cov, assumptions, time.time() - t0, n_new)
         print(f"{pid} [{tier}] MC states={r_mc.distinct} scenarios={len(scen)} replayed={len(recs)} accepted={acc} rejected={len(rej)} "
               f"(new={n_new} known={n_known}) {stats} wall={time.time() - t0:.0f}s")
